@@ -438,4 +438,60 @@ def parseExprString (s : String) : Option PExpr :=
     | some (e, [.nl]) => some e
     | _ => none
 
+namespace Printer
+/-! ## The minimal-parenthesis printer (inverse of the parser: `GotranxProofs.ParseRender`) -/
+
+def prec : PExpr → Nat
+  | .bin .add _ _ | .bin .sub _ _ => 0
+  | .bin .mul _ _ | .bin .div _ _ => 1
+  | .un _ _ | .bin .pow _ _ => 2
+  | _ => 3
+
+def unTok : UnOp → Tok | .neg => .minus | .pos => .plus | .inv => .tilde
+
+mutual
+/-- tokens of `e` without outer parentheses -/
+def toks : PExpr → List Tok
+  | .num m e => [.num m e]
+  | .var x => [.ident x]
+  | .pi => [.ident "pi"]
+  | .un op a => unTok op :: render 2 a
+  | .bin .add a b => render 0 a ++ .plus :: render 1 b
+  | .bin .sub a b => render 0 a ++ .minus :: render 1 b
+  | .bin .mul a b => render 1 a ++ .star :: render 2 b
+  | .bin .div a b => render 1 a ++ .slash :: render 2 b
+  | .bin .pow a b => render 3 a ++ .pow :: render 2 b
+  | .call f args => .ident f :: .lp :: renderArgs args ++ [.rp]
+/-- `e` printed where the ladder expects level `l`: parenthesised iff its own level is lower -/
+def render (l : Nat) (e : PExpr) : List Tok :=
+  if l ≤ prec e then toks e else .lp :: toks e ++ [.rp]
+def renderArgs : List PExpr → List Tok
+  | [] => []
+  | [a] => render 0 a
+  | a :: b :: rest => render 0 a ++ .comma :: renderArgs (b :: rest)
+end
+
+mutual
+/-- well-formed trees: variable names are not keywords, calls are calls of the language's functions
+with at least one argument -/
+def WF : PExpr → Bool
+  | .num _ _ | .pi => true
+  | .var x => x != "pi" && !funcNames.contains x && !logicalNames.contains x
+  | .un _ a => WF a
+  | .bin _ a b => WF a && WF b
+  | .call f args => f != "pi" && (funcNames.contains f || logicalNames.contains f) && !args.isEmpty && WFList args
+def WFList : List PExpr → Bool
+  | [] => true
+  | a :: rest => WF a && WFList rest
+end
+
+
+/-- print, re-parse with the fuel the parser really uses, compare: the theorem `parse_render`, evaluated -/
+def roundTrips (e : PExpr) : Bool :=
+  match pExpr (exprFuel (render 0 e)) (render 0 e) with
+  | some (e', []) => toString (repr e') == toString (repr e)
+  | _ => false
+
+end Printer
+
 end Gx
